@@ -20,7 +20,7 @@ META = {
         "quick": "schedules of <= 8 steps, <= 4 elements per producer, n in {1,2,3} for buffer / zip maxsize / "
                  "map_async parallelism, out-of-order completion of jobs; awaiting producers for the bound "
                  "clause, blind producers for wait/wake; blocking emit via cooperative Event model (<= 5 steps)",
-        "thorough": "schedules of <= 10 steps, <= 5 elements",
+        "thorough": "schedules of <= 9 steps, <= 5 elements; blocking emit <= 8 steps",
     },
     "outside": ["pre-emptive interleaving of two user threads", "several producers on one zip input"],
     "stubs": ["event loop + clock: engine/vloop.py",
@@ -125,7 +125,7 @@ def templates(tier):
 
 def obligations(tier):
     q = tier == "quick"
-    steps = 8 if q else 10
+    steps = 8 if q else 9
     obls = []
     for sh in templates(tier):
         nm = "%s/n=%s/%s/%s/steps=%d" % (sh["template"], sh.get("n", "-"),
